@@ -812,7 +812,7 @@ def run(ctx):
     flush()
 
     # --- sampled larger documents ---------------------------------------------------------
-    n = ctx.n(500, 3500)
+    n = ctx.n(500, 3000)
     for j in range(n):
         if ctx.time_left() < 8:
             ctx.notes.append("sampled stream stopped early at %d/%d" % (j, n))
